@@ -192,6 +192,17 @@ fn main() {
             cli_jobs.push((a(&["version", "--source", "stdin", "--schema-ron", &ron, "--output-format", fmt, "--bumped-branch", x, "--bumped-commit-hash", x, "--custom", &json!({"k": x}).to_string(), "--bump-major", "--pre-release-label", "beta"]), Some(stdin_doc.clone()), fmt, ""));
         }
     }
+    // custom variables of every JSON type in every section, through version and flow, plus flow with a custom schema
+    for val in ["-3", "1.5", "1e300", "-0.0", "null", "true", "false", "[1,2]", "{\"a\":1}", "\"007\"", "18446744073709551615", "-9223372036854775808", "\"\"", "\"é\"", "0", "\"1.2.3\"", "\"+\"", "\"a b\"", "123456789012345678901234567890"] {
+        for fmt in ["semver", "pep440"] {
+            let a = |v: &[&str]| v.iter().map(|s| s.to_string()).collect::<Vec<String>>();
+            let ron = "(core:[var(Major),var(custom(\"k\")),var(Minor)],extra_core:[var(custom(\"k\")),var(PreRelease),var(custom(\"n.k\"))],build:[var(custom(\"k\")),var(custom(\"missing\"))])";
+            let custom = format!("{{\"k\": {val}, \"n\": {{\"k\": {val}}}}}");
+            cli_jobs.push((a(&["version", "--source", "none", "--tag-version", "1.2.3-rc.1", "--schema-ron", ron, "--custom", &custom, "--output-format", fmt]), None, fmt, ""));
+            cli_jobs.push((a(&["flow", "--source", "none", "--tag-version", "1.2.3", "--distance", "2", "--bumped-branch", "feature/7", "--schema-ron", ron, "--custom", &custom, "--output-format", fmt]), None, fmt, ""));
+            cli_jobs.push((a(&["flow", "--source", "stdin", "--dirty", "--schema-ron", ron, "--custom", &custom, "--output-format", fmt, "--output-prefix", "v"]), Some(stdin_doc.clone()), fmt, "v"));
+        }
+    }
     let s4 = cli_jobs.par_iter().map(|(args, stdin, fmt, prefix)| { let mut st = Stats::default(); let _ = cli_case(&ctx, args, stdin.as_deref(), fmt, prefix, &mut st); st }).reduce(Stats::default, Stats::merge);
     // --output-prefix layer: every prefix over a 6-symbol alphabet up to length 3 (+ specials) x commands x formats;
     // stdout must be exactly prefix ++ (the same run without --output-prefix)
